@@ -33,7 +33,11 @@ pub open spec fn vobj_ok_at(st: St, v: Seq<char>) -> bool { get_vobj(st, v) matc
 pub open spec fn validators_ok(st: St) -> bool {
     forall|v: Seq<char>| #[trigger] vobj_ok_at(st, v)
 }
-pub open spec fn swf(st: St) -> bool { stakers_exist(st) && validators_ok(st) }
+// I1c: conversely every stake entry belongs to a recorded staker (so it keeps earning rewards and is seen by slash)
+pub open spec fn shares_have_staker(st: St) -> bool {
+    forall|d: Addr, v: Seq<char>| #[trigger] has_shares(st, d, v) ==> has_staker(st, v, d)
+}
+pub open spec fn swf(st: St) -> bool { stakers_exist(st) && shares_have_staker(st) && validators_ok(st) }
 
 // ---- keys of different containers / different entries never collide
 pub proof fn lemma_ns_facts()
@@ -228,6 +232,14 @@ pub proof fn lemma_rewards_updated_swf(st0: St, st1: St, v: Seq<char>, now: Time
             assert(has_staker(st0, v2, d));
         }
     }
+    assert forall|d: Addr, v2: Seq<char>| #[trigger] has_shares(st1, d, v2) implies has_staker(st1, v2, d) by {
+        lemma_frame_other_validator(st0, st1, v, i0.stakers@, v2, d);
+        if v2 == v {
+            if !i0.stakers@.contains(d) { assert(has_shares(st0, d, v)); assert(has_staker(st0, v, d)); }
+        } else {
+            assert(has_shares(st0, d, v2)); assert(has_staker(st0, v2, d));
+        }
+    }
     assert forall|v2: Seq<char>| #[trigger] vobj_ok_at(st1, v2) by {
         lemma_frame_other_validator(st0, st1, v, i0.stakers@, v2, arbitrary());
         assert(get_vobj(st1, v2) == get_vobj(st0, v2));
@@ -345,6 +357,10 @@ pub proof fn lemma_stake_changed_swf(sm: St, s1: St, d: Addr, v: Seq<char>, amou
         } else {
             assert(has_staker(sm, v2, d2));
         }
+    }
+    assert forall|d2: Addr, v2: Seq<char>| #[trigger] has_shares(s1, d2, v2) implies has_staker(s1, v2, d2) by {
+        lemma_frame2(sm, s1, d, v, d2, v2);
+        if v2 == v && d2 == d { } else { assert(has_shares(sm, d2, v2)); assert(has_staker(sm, v2, d2)); }
     }
     assert forall|v2: Seq<char>| #[trigger] vobj_ok_at(s1, v2) by {
         lemma_frame2(sm, s1, d, v, d, v2);
@@ -506,6 +522,16 @@ pub proof fn lemma_slash_done(sm: St, st: St, s1: St, seq: Seq<Addr>, v: Seq<cha
             assert(has_staker(sm, v2, d2));
         }
     }
+    assert forall|d2: Addr, v2: Seq<char>| #[trigger] has_shares(s1, d2, v2) implies has_staker(s1, v2, d2) by {
+        lemma_slash_frame_other(sm, s1, v, im.stakers@, v2, d2);
+        if v2 == v {
+            if im.stakers@.contains(d2) {
+                if wipe { assert(!s1.contains_key(k_stake(d2, v))); }
+            } else { assert(has_shares(sm, d2, v)); assert(has_staker(sm, v, d2)); }
+        } else {
+            assert(has_shares(sm, d2, v2)); assert(has_staker(sm, v2, d2));
+        }
+    }
     assert forall|v2: Seq<char>| #[trigger] vobj_ok_at(s1, v2) by {
         lemma_slash_frame_other(sm, s1, v, im.stakers@, v2, arbitrary());
         assert(vobj_ok_at(sm, v2));
@@ -581,5 +607,36 @@ pub proof fn lemma_slashed_props(sm: St, s1: St, v: Seq<char>, rem: nat, d: Addr
     }
     if rem == 0 {
         assert(dmul(im.stake.u as nat, 0) == 0) by (nonlinear_arith);
+    }
+}
+
+// ---- C15: what a withdrawal pays is what the query showed at the same block time
+pub proof fn lemma_reward_zero_dt(stake: nat, apr: nat, comm: nat)
+    ensures reward_net(stake, apr, comm, 0) == 0, reward_gross(stake, apr, 0) == 0
+{
+    lemma_gross_steps(stake, apr, 0);
+    assert(stake * apr * 0 == 0) by (nonlinear_arith);
+    assert(dmul(0, comm) == 0) by (nonlinear_arith);
+}
+pub proof fn lemma_shown_is_paid(st0: St, sm: St, d: Addr, v: Seq<char>, now: Timestamp)
+    requires
+        swf(st0), upd_post(st0, sm, v, now),
+        get_shares(st0, d, v) matches Ok(Some(s0)) && get_vinfo(st0, v) matches Ok(Some(i0)) && get_vobj(st0, v) matches Ok(Some(vo))
+            && now.nanos >= i0.last_rewards_calculation.nanos && pending_fits(s0, i0, sinfo_apr(st0), vo.commission.atomics as nat, now),
+    ensures
+        /*VXCLAUSE C15.lemma.shown_is_paid*/ (get_shares(sm, d, v) matches Ok(Some(sh)) && sh.stake == (get_shares(st0, d, v)->Ok_0->0).stake
+            && sh.rewards.atomics / 1_000_000_000_000_000_000 == pending_spec(get_shares(st0, d, v)->Ok_0->0, get_vinfo(st0, v)->Ok_0->0, sinfo_apr(st0), (get_vobj(st0, v)->Ok_0->0).commission.atomics as nat, now)),
+{
+    let s0 = get_shares(st0, d, v)->Ok_0->0;
+    let i0 = get_vinfo(st0, v)->Ok_0->0;
+    let vo = get_vobj(st0, v)->Ok_0->0;
+    if i0.last_rewards_calculation.nanos >= now.nanos {
+        lemma_reward_zero_dt(i0.stake.u as nat, sinfo_apr(st0), vo.commission.atomics as nat);
+        assert(dmul(0, s0.stake.atomics as nat) == 0) by (nonlinear_arith);
+    } else {
+        let nr = choose|nr: nat| upd_nr(st0, v, now, nr) && rewards_updated(st0, sm, v, now, nr);
+        assert(has_shares(st0, d, v));
+        assert(has_staker(st0, v, d));
+        assert(credited(st0, sm, d, v, i0.stake.u as nat, nr));
     }
 }
